@@ -3,6 +3,8 @@ C05 — load returns a conforming instance or raises; it never mutates its input
 -/
 import DW.Generated.Tables
 import DW.Model.Load
+import DW.Lemmas.SoundScalar
+import DW.Lemmas.Sound
 
 namespace DW.Props.C05
 open DW
@@ -13,122 +15,40 @@ theorem C05_no_input_writes :
     (∀ row ∈ Generated.loadHookEffects, row.2.2 = "") ∧ (∀ row ∈ Generated.convEffects, row.2.2 = "") := by
   constructor <;> decide
 
-/-- a value is the Literal member `l`: same value *and* same type -/
-def litIs (l : Lit) (v : PyVal) : Bool :=
-  match l, v with
-  | .none, .none => true
-  | .bool a, .bool b => a == b
-  | .int a, .int b => a == b
-  | .float a, .float b => a == b
-  | .str a, .str b => a == b
-  | _, _ => false
-
-theorem litIs_toPy (l : Lit) : litIs l l.toPy = true := by
-  cases l <;> simp [litIs, Lit.toPy]
-
-/-- conformance of a scalar result to its annotation (exact type; Literal by value *and* type) -/
-def conformsScalar : Ty → PyVal → Bool
-  | .int, .int _ => true
-  | .float, .float _ => true
-  | .str, .str _ => true
-  | .bool, .bool _ => true
-  | .leaf k, .leaf k' false _ => k == k'
-  | .timedelta, .timedelta _ => true
-  | .enum n ms, .enum n' m v => n == n' && ms.contains (m, v)
-  | .literal vs, v => vs.any (fun l => litIs l v)
-  | _, _ => false
-
-def isScalarTy : Ty → Bool
-  | .int | .float | .str | .bool | .leaf _ | .timedelta | .enum _ _ | .literal _ => true
-  | _ => false
-
-theorem find?_mem_aux {α} (p : α → Bool) (l : List α) (a : α) (h : l.find? p = some a) : a ∈ l ∧ p a = true := by
-  exact ⟨List.mem_of_find?_eq_some h, List.find?_some h⟩
-
 /-- Soundness at scalar annotations, for *every* JSON input (nan, inf, huge, junk, containers):
 whatever the default engine returns for `int`, `float`, `str`, `bool`, Decimal/Path/UUID/date/time/datetime,
 `timedelta`, an Enum or a `Literal` is a value of that exact type. -/
 theorem C05_sound_scalar (std : Std) (cfg : Option MetaCfg) (t : Ty) (ht : isScalarTy t = true) (o : JVal) (y : PyVal)
-    (h : loadD std cfg t o = .ok y) : conformsScalar t y = true := by
-  cases t <;> simp [isScalarTy] at ht
-  case int =>
-    simp only [loadD] at h
-    cases o <;> simp [asInt, pure, Except.pure, rawE] at h
-    case int i => subst h; rfl
-    case float f => split at h <;> simp at h; subst h; rfl
-    case str s =>
-      split at h
-      · simp at h; subst h; rfl
-      · split at h
-        · split at h
-          · simp at h
-          · split at h <;> simp at h; subst h; rfl
-        · split at h <;> simp at h; subst h; rfl
-    case null => subst h; rfl
-    case list xs => split at h <;> simp at h; subst h; rfl
-    case dict kvs => split at h <;> simp at h; subst h; rfl
-  case float =>
-    simp only [loadD] at h
-    cases o <;> simp [asFloat, pure, Except.pure, rawE] at h
-    case float f => subst h; rfl
-    case int i => split at h <;> simp at h; subst h; rfl
-    case bool b => split at h <;> simp at h; subst h; rfl
-    case str s => split at h <;> simp at h; subst h; rfl
-  case str =>
-    simp only [loadD] at h
-    cases o <;> simp [asStr, pure, Except.pure] at h <;> (subst h; rfl)
-  case bool =>
-    simp [loadD, pure, Except.pure] at h; subst h; rfl
-  case leaf k =>
-    cases k <;> simp only [loadD] at h
-    case decimal =>
-      cases o <;> simp [asDecimal, strOfJ, pure, Except.pure, rawE] at h <;>
-        (split at h <;> simp at h; subst h; rfl)
-    case path =>
-      cases o <;> simp [asPath, strOfJ, pure, Except.pure] at h <;> (subst h; rfl)
-    case uuid =>
-      cases o <;> simp [asUuid, pure, Except.pure, rawE] at h
-      split at h <;> simp at h; subst h; rfl
-    case date =>
-      cases o <;> simp [asDate, jNumExact?, pure, Except.pure, rawE] at h <;>
-        (split at h <;> simp at h; subst h; rfl)
-    case time =>
-      cases o <;> simp [asTime, pure, Except.pure, rawE] at h
-      split at h <;> simp at h; subst h; rfl
-    case datetime =>
-      cases o <;> simp [asDatetime, jNumExact?, pure, Except.pure, rawE] at h <;>
-        (split at h <;> simp at h; subst h; rfl)
-  case timedelta =>
-    simp only [loadD] at h
-    cases o <;> simp [asTimedelta, jNumExact?, pure, Except.pure, rawE] at h
-    case int i => split at h <;> simp at h; subst h; rfl
-    case float f => split at h <;> simp at h; subst h; rfl
-    case str s =>
-      split at h
-      · simp at h
-      · split at h <;> simp at h; subst h; rfl
-  case enum n ms =>
-    simp only [loadD, asEnum] at h
-    split at h
-    · rename_i m hm
-      simp [pure, Except.pure] at h; subst h
-      have := List.mem_of_find?_eq_some hm
-      simp [conformsScalar, this]
-    · simp [rawE] at h
-  case literal vs =>
-    simp only [loadD, asLiteral] at h
-    split at h
-    · simp [rawE] at h
-    · split at h
-      · simp [parseE] at h
-      · rename_i l hl
-        have hy : y = l.toPy := by
-          split at h <;> simp [pure, Except.pure, parseE] at h <;> exact h.symm
-        subst hy
-        have hm := List.mem_of_find?_eq_some hl
-        simp only [conformsScalar, List.any_eq_true]
-        exact ⟨l, hm, litIs_toPy l⟩
+    (h : loadD std cfg t o = .ok y) : conformsScalar t y = true :=
+  sound_scalar std cfg t ht o y h
 
+/-- **C05 (soundness, composite types).** For every type built from the scalar kinds, `Any`, `Optional`, list / set /
+frozenset / deque, variadic tuples, dict-like types and dataclasses, nested to any depth (`Frag`), for **every** JSON
+input and any travelling config: whatever the default engine returns is an instance of the annotation (`Sound`) —
+containers of the exact kind whose elements / keys / values are sound, dataclass instances with exactly the declared
+fields in order, each holding a sound loaded value, the captured catch-all dictionary, or the field's declared default /
+`__post_init__` value. By induction over the type; the dataclass case goes through the key loop
+(`loadKeysWith_sound`), junk inputs (`loadJunkKeys_sound`) and the constructor step (`buildFields_origin`).
+Outside the fragment: `Union` (recorded findings), fixed-length tuples (recorded finding), NamedTuple / TypedDict, the
+`None` annotation (recorded finding). -/
+theorem C05_sound (std : Std) (cfg : Option MetaCfg) (t : Ty) (hf : Frag t) (o : JVal) (y : PyVal)
+    (h : loadD std cfg t o = .ok y) : Sound t y :=
+  sound std cfg t hf o y h
+
+/-- non-vacuity: a nested model is in the fragment -/
+theorem C05_sound_example :
+    Frag (.cls { name := "R".toList, fields := [{ name := "xs".toList }, { name := "m".toList }] }
+      [("xs".toList, .seq .set (.optional .int)), ("m".toList, .map .defaultdict .str (.cls { name := "I".toList, fields := [{ name := "d".toList }] } [("d".toList, .leaf .datetime)]))]) := by
+  refine Frag.cls _ _ ?_
+  intro p hp
+  simp only [List.mem_cons, List.not_mem_nil, or_false] at hp
+  rcases hp with rfl | rfl
+  · exact Frag.seq _ _ (Frag.optional _ (Frag.scalar _ rfl))
+  · refine Frag.map _ _ _ (Frag.scalar _ rfl) (Frag.cls _ _ ?_)
+    intro q hq
+    simp only [List.mem_cons, List.not_mem_nil, or_false] at hq
+    subst hq
+    exact Frag.scalar _ rfl
 
 /-- After the repair (fix: 461d34c) a Union without `None` rejects `null` instead of passing it through. -/
 theorem C05_union_rejects_none (std : Std) (cfg : Option MetaCfg) :
